@@ -318,13 +318,13 @@ func TestVerifC34LinkHeaderMalformed(t *testing.T) {
 		got, err := LinkHeaderUnmarshal([]string{bad})
 		res := "rejected"
 		if err == nil {
-			// A lenient reader may tolerate trailing garbage or token-form (unquoted) values, but
-			// then the values must be the ones in the header; everything else lacks information
-			// and cannot be accepted.
+			// A lenient reader may tolerate trailing garbage, a missing credential-type or token-form
+			// (unquoted) values, but then the values must be the ones in the header; everything
+			// else lacks information and cannot be accepted.
 			res = "accepted-faithfully"
 			want := x
 			switch kind {
-			case "trailing-garbage":
+			case "trailing-garbage", "missing-type": // "password" is the only credential type there is
 			case "unquoted":
 				want.user, want.cred = "user", "pass"
 			default:
